@@ -75,7 +75,7 @@ fn run_job(job: &Value) -> Value {
         .and_then(|v| v.as_array())
         .map(|a| {
             a.iter()
-                .map(|f| Fault { site: gu(f, "site").unwrap_or(u64::MAX), errno: gs(f, "errno").and_then(errno_by_name), clamp: gu(f, "clamp"), fired: None })
+                .map(|f| Fault { site: gu(f, "site").unwrap_or(u64::MAX), m_call: gs(f, "call").map(|x| x.to_string()), m_path: gs(f, "path").map(|x| x.to_string()), m_nth: gu(f, "nth").unwrap_or(0), errno: gs(f, "errno").and_then(errno_by_name), clamp: gu(f, "clamp"), fired: None })
                 .collect()
         })
         .unwrap_or_default();
